@@ -236,6 +236,51 @@ def run_rewrite(c):
         return {"rc": r["rc"], "file": text, "ref": ref["out"], "err": r["err"][:200]}
 
 
+def run_cli_stream(job):
+    """the documents through the command line: `bkl -o out.<ext> in.jsonl` or `bkl in.<ext>` (virtual extension, stdout)"""
+    src, ext, way = job
+    with Workdir() as d:
+        write_files(d, {"in.jsonl": src})
+        if way == "-o":
+            r = run_cli("bkl", ["-o", "out." + ext, "in.jsonl"], d)
+            p = os.path.join(d, "out." + ext)
+            data = open(p, "rb").read() if os.path.isfile(p) else None
+        else:
+            r = run_cli("bkl", ["in." + ext], d)
+            data = r["out_bytes"]
+        return {"rc": r["rc"], "data": data, "err": r["err"][:200]}
+
+
+def cli_stream_stage(rep, cases):
+    """what the command line writes (OutputToFile / OutputToWriter) is byte for byte what Output(format) returns for the same
+    documents, in every format, for streams of several documents too"""
+    ops = [to_op(observe(c), i) for i, c in enumerate(cases)]
+    go = run_go(ops)
+    jobs, meta = [], []
+    for i, c in enumerate(cases):
+        res = (go.get(i) or {}).get("res", [])
+        outs = dict(zip(FMTS, res[len(c["docs"]):]))
+        if "bytes" not in outs.get("jsonl", {}):
+            continue
+        src = base64.b64decode(outs["jsonl"]["bytes"]).decode("utf-8")
+        for k, f in enumerate(FMTS):
+            way = "-o" if (i + k) % 2 == 0 else "virt"
+            jobs.append((src, f, way))
+            meta.append((c, f, way, base64.b64decode(outs[f]["bytes"]) if "bytes" in outs.get(f, {}) else None))
+    for (c, f, way, lib), o in zip(meta, pmap(run_cli_stream, jobs)):
+        rep.case(["cli-stream", c["docs"], f, way], True)
+        rep.count(f"cli-stream:{f}:{way}:{min(len(c['docs']), 3)}doc")
+        if lib is None:
+            if o["rc"] == 0 and len(rep.violations) < 6:
+                rep.violation(f"the command line wrote {f} output for documents Output({f}) rejects", {"case": {"clistream": {"docs": c["docs"], "format": f, "way": way}}, "observed": str(o)[:400]})
+            continue
+        if (o["rc"] != 0 or o["data"] != lib) and len(rep.violations) < 6:
+            rep.violation(f"the command line ({'-o out.' + f if way == '-o' else 'input extension ' + f}) does not write what Output({f}) returns for the same {len(c['docs'])} document(s)",
+                          {"case": {"clistream": {"docs": c["docs"], "format": f, "way": way}},
+                           "observed": {"rc": o["rc"], "err": o["err"], "cli": (o["data"] or b"").decode("utf-8", "replace")[:400], "library": lib.decode("utf-8", "replace")[:400]}})
+
+
+
 def expected_format(c):
     alias = {"yml": "yaml", "jsonl": "json"}
     if c["f"]:
@@ -256,7 +301,8 @@ def run(rep):
                 "boundary integers, doubles, empty maps/lists; every format json/jsonl/json-pretty/yaml/yml/toml through the library; each "
                 "output is re-read by bkl itself and by an independent parser (json, libyaml with a YAML 1.2 core schema, tomllib), numbers "
                 "compared by exact value; plus format selection through -f / -o extension / virtual input extension in all combinations; "
-                "-o over an existing longer / garbage file; numbers compared by exact value AND kind; every case is non-trivial")
+                "-o over an existing longer / garbage file; the command line's output (-o file, stdout by input extension) against Output(format) "
+                "byte for byte for multi-document streams in every format; numbers compared by exact value AND kind; every case is non-trivial")
     rep.proof, rep.broken = proof_step(PID)
     rng = random.Random(rep.seed)
     known_sigs = {k["signature"]: k for k in load_known().get("open", []) if k.get("property") == PID}
@@ -321,6 +367,7 @@ def run(rep):
         if o["rc"] != 0 or o["file"] != o["ref"]:
             rep.violation(f"-o {c['ext']} over an existing file ({c['preexisting']}): the file does not hold exactly the new output",
                           {"case": {"rewrite": c}, "observed": {k: (v[:300] if isinstance(v, str) else v) for k, v in o.items()}})
+    cli_stream_stage(rep, [gen_case(rng) for _ in range(60 if rep.tier == "quick" else 1500)])
     # the JSON codec is INSIDE the model (Bkl.Json, theorems C05_json_*): writer and reader compared on text
     import jsoncheck
     jsoncheck.run(rep, rng, 400 if rep.tier == "quick" else 12000, 600 if rep.tier == "quick" else 20000)
@@ -333,6 +380,10 @@ def run(rep):
 def replay(rep, payload):
     known_sigs = {}
     c = payload["case"]
+    if "clistream" in c:
+        before = len(rep.violations)
+        cli_stream_stage(rep, [{"docs": c["clistream"]["docs"]}])
+        return 1 if len(rep.violations) > before else 0
     if "rewrite" in c:
         o = run_rewrite(c["rewrite"])
         print(o)
